@@ -59,7 +59,13 @@ def gen_aggregate(rng, model, idx, pool, depth=0, anonymous=False, parent_packed
         elif r < 0.55:
             t, sz, al = rng.choice(SCALARS)
             if alignas < al: alignas = 0
-            m = dict(text='%s%s %s;' % ('_Alignas(%d) ' % alignas if alignas else '', t, name), size=sz, align=alignas or al, bf=-1, named=True, name=name)
+            atext = '_Alignas(%d) ' % alignas if alignas else ''
+            if alignas and rng.random() < 0.5:
+                # several alignment specifiers: the strictest one takes effect (6.7.5p6), whatever their order; _Alignas(0) has no effect
+                others = [a2 for a2 in (0, al, 2, 4, 8, 16) if a2 == 0 or al <= a2 <= alignas]
+                specs = [alignas] + [rng.choice(others) for _ in range(rng.randint(1, 2))]; rng.shuffle(specs)
+                atext = ''.join('_Alignas(%d) ' % a2 for a2 in specs)
+            m = dict(text='%s%s %s;' % (atext, t, name), size=sz, align=alignas or al, bf=-1, named=True, name=name)
         elif r < 0.7:
             t, sz, al = rng.choice(SCALARS)
             n = rng.randint(1, 5)
